@@ -263,6 +263,79 @@ def extra_laws(cr):
             cr.add(sig, "$$.Nope.x -> %s" % got, {"kind": "law", "property": PROP, "signature": sig, "law": "context-nomatch", "doc": doc}, size=1)
     return n
 
+EXEC_INPUTS = [{"a": {"n": 1, "k": [1, 2]}, "b": "keep"}, {"a": [5], "c": None}, {"a": 7}]
+
+def exec_cases():
+    """Single-state executions: every combination of InputPath x ResultPath x OutputPath on Pass / Task / Parallel / Map."""
+    import itertools
+    FA = "arn:aws:rpcmessage:local::function:f"
+    out = []
+    for kind in ("Pass", "PassResult", "Task", "Parallel", "Map"):
+        for ip, rp, op in itertools.product(("absent", "$.a", None, "$"), ("absent", "$.r", "$.a.n", None, "$"), ("absent", "$.a", None)):
+            if kind == "Pass":
+                st = {"Type": "Pass"}
+            elif kind == "PassResult":
+                st = {"Type": "Pass", "Result": {"res": [1]}}
+            elif kind == "Task":
+                st = {"Type": "Task", "Resource": FA}
+            elif kind == "Parallel":
+                st = {"Type": "Parallel", "Branches": [{"StartAt": "B", "States": {"B": {"Type": "Pass", "End": True}}}]}
+            else:
+                st = {"Type": "Map", "ItemsPath": "$.k", "ItemProcessor": {"StartAt": "I", "States": {"I": {"Type": "Pass", "End": True}}}}
+            if ip != "absent": st["InputPath"] = ip
+            if rp != "absent": st["ResultPath"] = rp
+            if op != "absent": st["OutputPath"] = op
+            st["Next"] = "CTX"
+            d = {"StartAt": "FWD", "States": {"FWD": {"Type": "Pass", "Next": "S"}, "S": st,
+                                              "CTX": {"Type": "Pass", "Parameters": {"out.$": "$", "orig.$": "$$.Execution.Input"}, "End": True}}}
+            for ii in range(len(EXEC_INPUTS)):
+                out.append((d, ii))
+    return out
+
+def _exec_batch(args):
+    lo, hi = args
+    from harness.world import World, exec_arn
+    cs = exec_cases()[lo:hi]
+    sc = {"name": "c12-exec", "machines": {}, "starts": [], "record_sites": False, "workers": {"f": {"*": [["ok", {"t": [0]}]]}}, "horizon": 1e9}
+    for idx, (d, ii) in enumerate(cs):
+        sc["machines"]["m%d" % idx] = {"definition": d}
+        sc["starts"].append({"machine": "m%d" % idx, "name": "e", "input": EXEC_INPUTS[ii], "after_quiet": True})
+    w = World(sc); w.run(max_steps=1000000)
+    got = {}
+    for n in w.notes:
+        det = n["body"]["detail"]
+        if det["status"] != "RUNNING":
+            got[det["executionArn"]] = [det["status"], json.loads(det["output"]) if det.get("output") is not None else None, det.get("error")]
+    w.close()
+    return [got.get(exec_arn("m%d" % idx, "e")) for idx in range(len(cs))]
+
+def exec_part(cr):
+    from ref import asl as RA
+    from .c01 import loose_eq
+    cs = exec_cases()
+    n = len(cs)
+    step = 150
+    ctx = multiprocessing.get_context("fork")
+    with ctx.Pool(common.JOBS) as pool:
+        outs = pool.map(_exec_batch, [(lo, min(n, lo + step)) for lo in range(0, n, step)], chunksize=1)
+    got = [g for o in outs for g in o]
+    judged = 0
+    for (d, ii), g in zip(cs, got):
+        inp = copy.deepcopy(EXEC_INPUTS[ii])
+        try:
+            want = RA.run(d, inp, RA.ScriptedTasks({"f": {"*": [["ok", {"t": [0]}]]}}), context={"Execution": {"Input": copy.deepcopy(inp), "Name": "e"}})
+        except RA.Unjudged:
+            continue
+        judged += 1
+        ok = g is not None and g[0] == want.status and (loose_eq(g[1], want.output) if want.status == "SUCCEEDED" else
+                                                          (g[2] in RA.RUNTIME_CLASS if want.error in RA.RUNTIME_CLASS else g[2] == want.error))
+        if not ok:
+            st = d["States"]["S"]
+            sig = "exec|%s" % st["Type"]
+            cr.add(sig, "state %s on input %s -> %r, reference %s" % (json.dumps(st), json.dumps(inp), g, want.key()),
+                   {"kind": "exec", "property": PROP, "signature": sig, "definition": d, "input_index": ii}, size=len(json.dumps(st)))
+    return n, judged
+
 def run(tier, seed):
     cr = common.CheckResult(PROP)
     nd = len(docs(tier))
@@ -280,11 +353,17 @@ def run(tier, seed):
             cr.add(sig, detail, rp, size=len(json.dumps(rp)))
             cr.findings[sig].count += cnt - 1
     n += extra_laws(cr)
+    en, ej = exec_part(cr)
+    n += en
+    nontrivial += ej
     cr.coverage = {
+        "single_state_executions": en, "single_state_executions_judged": ej,
         "evaluations": n, "distinct_nontrivial": nontrivial,
         "rule": "all %d documents of the tier's alphabet x all %d reference paths of length <= 3 over {.a .b ['a'] ['a b'] ['k.l'] ['0'] [0] [1]} "
                 "(read law) x results {fresh scalar, fresh object, the input itself, up to 3 sub-trees of the input} (placement laws); "
-                "non-trivial = the reference defines a value (path matches / is placeable); oracle ref/jsonpath.py" % (nd, len(paths(tier))),
+                "non-trivial = the reference defines a value (path matches / is placeable); oracle ref/jsonpath.py. Plus single-state executions through the real engine: "
+                "{Pass, Pass+Result, Task, Parallel, Map} x InputPath {absent,$.a,null,$} x ResultPath {absent,$.r,$.a.n,null,$} x OutputPath {absent,$.a,null} x 3 inputs, followed by a state that "
+                "reports the output and $$.Execution.Input; oracle ref/asl.py" % (nd, len(paths(tier))),
         "samples": [{"doc": {"a": {"a b": 0}}, "path": "$.a['a b']", "op": "read"}, {"doc": {"a": [0, {"b": 1}]}, "path": "$.a[1].b", "op": "put", "result": "the input itself"}],
         "exhaustive": True, "documents": nd, "paths": len(paths(tier)),
     }
@@ -303,6 +382,8 @@ def replay(rp):
         return 1 if bad else 0
     cr = common.CheckResult(PROP)
     extra_laws(cr)
+    if rp.get("kind") == "exec":
+        exec_part(cr)
     bad = rp["signature"] in cr.findings
     print("REPRODUCED property=C12 %s" % rp["signature"] if bad else "not reproduced")
     return 1 if bad else 0
